@@ -51,17 +51,37 @@ def move_import_agreement(ctx: Ctx, col: Collector) -> None:
         return None, []
     mloop, mcmps = argmin_loop(mfi, lambda it: "reexported_by" in ast.unparse(it))
     sloop, scmps = argmin_loop(sfi, lambda it: "module_ids" in ast.unparse(it))
-    if mloop is None or sloop is None or len(mcmps) != 1 or len(scmps) != 1:
-        raise AnalysisError("the two shortest-re-export selections were not found (loop over node.reexported_by / over module_ids with one depth comparison)")
+    # the import side may also select with min(candidates, key=lambda it: (depth, id, alias)): min keeps the first minimal entry, so it is the
+    # argmin loop over the candidates sorted by the rest of the key - provided the first component counts path segments like the move does
+    smin = None
+    if sloop is None:
+        for n in ast.walk(sfi.node):
+            if isinstance(n, ast.Call) and getattr(n.func, "id", "") == "min" and n.args and "module_ids" in ast.unparse(n.args[0]):
+                lam = next((k.value for k in n.keywords if k.arg == "key" and isinstance(k.value, ast.Lambda)), None)
+                if lam is not None and isinstance(lam.body, ast.Tuple) and len(lam.body.elts) >= 2:
+                    smin = (n, lam)
+    if mloop is None or len(mcmps) != 1 or (smin is None and (sloop is None or len(scmps) != 1)):
+        raise AnalysisError("the two shortest-re-export selections were not found (loop over node.reexported_by / over module_ids with one depth comparison, or min() with a key)")
+    if smin is not None:
+        n, lam = smin
+        first = ast.unparse(lam.body.elts[0])
+        counts_segments = any(t in first for t in (".split('/')", '.split("/")', ".count('/')", '.count("/")'))
+        (col.ok if counts_segments else col.bad)(RULE, f"{sfi.module}::{sfi.qualname}::first-of-minimal-depth", repo.loc(sfi.module, n), f"min() ranks by `{first}`",
+                                                 *([] if counts_segments else [f"{sfi.qualname} ranks the re-exporting packages by `{first}`, which is not the number of path segments the move compares: "
+                                                                               f"for a class re-exported by `plot_pkg/core` and `plot_pkg/io` the stub is written into package plot_pkg.core (first of minimal depth) "
+                                                                               f"while imports name plot_pkg.io (shortest string); no stub declares that package"]))
     # (1) both keep the first entry of minimal depth (strict comparison)
-    for label, fi, c in (("move", mfi, mcmps[0]), ("import", sfi, scmps[0])):
+    for label, fi, c in (("move", mfi, mcmps[0]),) + ((("import", sfi, scmps[0]),) if smin is None else ()):
         strict = isinstance(c.ops[0], (ast.Lt, ast.Gt))
         (col.ok if strict else col.bad)(RULE, f"{fi.module}::{fi.qualname}::first-of-minimal-depth", repo.loc(fi.module, c), f"`{ast.unparse(c)[:70]}`",
                                         *([] if strict else [f"{fi.qualname} replaces its candidate on equal depth (`{ast.unparse(c)[:60]}`): among re-exporting packages of the same depth it keeps the last one "
                                                              f"while the other selection keeps the first; the declaration is declared in one package and imported from another"]))
     # (2) both walk their candidates in the same order
     skey = None
-    if isinstance(sloop.iter, ast.Call) and getattr(sloop.iter.func, "id", "") == "sorted":
+    if smin is not None:
+        rest = ast.Lambda(args=smin[1].args, body=ast.Tuple(elts=smin[1].body.elts[1:], ctx=ast.Load()))
+        skey = _norm_key(rest, ("{a}[0]",), ("{a}[1]",))
+    elif isinstance(sloop.iter, ast.Call) and getattr(sloop.iter.func, "id", "") == "sorted":
         lam = next((k.value for k in sloop.iter.keywords if k.arg == "key" and isinstance(k.value, ast.Lambda)), None)
         skey = _norm_key(lam, ("{a}[0]",), ("{a}[1]",)) if lam else ("ID", "ALIAS")
     mkeys = []
@@ -405,4 +425,7 @@ def check(ctx: Ctx, col: Collector, tier: str) -> None:
     from .shared import share
     share(ctx, col, "C10", {"C10.WRITE-MODE"}, "every placeholder declaration an import names survives in its placeholder stub")
     share(ctx, col, "C09", {"C09.ROLE-PIPELINE"}, "the declared, imported and referenced spelling of a class agree")
+    share(ctx, col, "C16", {"C16.STATE-RESET"}, "imports are registered as a side effect of rendering a type, into the import set of the module being rendered: generator state that outlives a module "
+          "(a memo of rendered text, a stale module id or mode flag) lets a later module reuse text without registering its imports, or register them against the wrong module",
+          key_filter=lambda o: "::field::" in o.key or o.key.endswith("::module-resets"))
     col.assume("that the package an import names is the package of the stub file declaring the class (two shortest-path heuristics over strings) is not decided")
